@@ -36,9 +36,10 @@ TASK_TIMEOUT_S = {"quick": 300, "thorough": 900}
 MIN_EVALUATIONS = {"quick": 20, "thorough": 200}
 N = {"quick": 128, "thorough": 1500}
 PATH_CAP = {"quick": 60_000, "thorough": 200_000}
-# deterministic work budget per scenario: decisions taken over all enumerated paths, weighted by the cost of
-# an integrator step (implicit / constrained steps run iterative solves); None = no budget beyond PATH_CAP
-WORK_CAP = {"quick": None, "thorough": 500_000}
+# deterministic work budget per scenario: decisions taken over all enumerated paths plus model-function calls made
+# (implicit / constrained steps run iterative solves: up to ~90 calls per decision); both cost ~0.1-0.2 ms.
+# None = no budget beyond PATH_CAP
+WORK_CAP = {"quick": None, "thorough": 700_000}
 
 
 def pseudo_criterion(system, s1, s2, sum_mom):  # noqa: ARG001
@@ -144,7 +145,7 @@ def build_transition(system, integ, ts, crit):
                termination_criterion=crit, do_extra_subtree_checks=ts["do_extra_subtree_checks"])
 
 
-def run_scenario(scn):
+def _run_scenario(scn):
     warnings.simplefilter("ignore")
     np.seterr(all="ignore")
     import mici
@@ -162,7 +163,7 @@ def run_scenario(scn):
         return res
 
     spec, ts = scn["system"], scn["transition"]
-    system, _model = zoo.build_system(spec)
+    system, _model = zoo.build_system(spec, hooked=True)  # hooked only to count model-function calls (work budget)
     integ_real = zoo.build_integrator(system, scn["integrator"])
     integ = dt.CountingIntegrator(integ_real)  # re-pointed at the boundary integrator once the orbit exists
     crit = MarginCriterion(ts.get("criterion", "euclidean"))
@@ -216,7 +217,7 @@ def run_scenario(scn):
             for p, (out, st_stats, outs, n_calls, errors, margins), script in dt.enumerate_paths(run, scn["path_cap"] - n_paths):
                 n_paths += 1
                 stats["decisions"] += len(script.trace)
-                if scn.get("work_cap") and stats["decisions"] * (12 if implicit else 1) > scn["work_cap"]:
+                if scn.get("work_cap") and stats["decisions"] + _CALLS[0] > scn["work_cap"]:
                     stats["paths"] = n_paths
                     return discard("work-budget")
                 for kd in script.kinds:
@@ -278,7 +279,7 @@ def run_scenario(scn):
             stats["paths"] = n_paths
             return discard("path-cap-predicted")
         if scn.get("work_cap"):
-            work = stats["decisions"] * (12 if implicit else 1)
+            work = stats["decisions"] + _CALLS[0]
             if work > scn["work_cap"] or (n_done in (1, 2, 4, 8, 16, 32) and work / n_done * len(starts) > 1.5 * scn["work_cap"]):
                 stats["paths"] = n_paths
                 return discard("work-budget")
@@ -335,6 +336,26 @@ def run_scenario(scn):
     stats["residual_decades"] = {dec: 1}
     if len(reach_ends) >= 2 and n_paths >= 8:
         res["keys"].append(digest([spec["kind"], (spec.get("metric") or {}).get("type"), scn["integrator"]["type"], ts, spec["target"]["offset"]]))
+    return res
+
+
+_CALLS = [0]
+
+
+def _count_call(name, q):  # noqa: ARG001
+    _CALLS[0] += 1
+
+
+def run_scenario(scn):
+    from models import hooks
+
+    _CALLS[0] = 0
+    hooks.install(_count_call)
+    try:
+        res = _run_scenario(scn)
+    finally:
+        hooks.clear()
+    res["stats"]["model_calls"] = _CALLS[0]
     return res
 
 
